@@ -3649,6 +3649,8 @@ class __implementations__:
 
     @implements(numpy.interp)
     def interp(x, xp, fp, left=None, right=None):
+        if numpy.shape(xp) != numpy.shape(fp) or numpy.ndim(xp) != 1:
+            raise ValueError('xp and fp must be one-dimensional arrays of the same length')
         index = numpy.searchsorted(xp, x)
         _xp = numpy.concatenate([[xp[0]], xp])
         _fp = numpy.concatenate([[fp[0]], fp])
